@@ -3,6 +3,7 @@ import XmppVerif.Drv.Recv
 import XmppVerif.Drv.Neg
 import XmppVerif.Drv.C06
 import XmppVerif.Drv.C10
+import XmppVerif.Drv.C13
 import XmppVerif.Drv.C14
 import XmppVerif.Drv.C15
 import XmppVerif.Drv.C16
@@ -25,6 +26,7 @@ def handlers : List (String × Handler) := [
   ("C12", XmppVerif.Drv.Recv.handlerC12),
   ("C06", XmppVerif.Drv.C06.handler),
   ("C10", XmppVerif.Drv.C10.handler),
+  ("C13", XmppVerif.Drv.C13.handler),
   ("C14", XmppVerif.Drv.C14.handler),
   ("C15", XmppVerif.Drv.C15.handler),
   ("C16", XmppVerif.Drv.C16.handler),
